@@ -40,7 +40,7 @@ Definition db_matches (d : db) (sn : snap) : bool :=
   set_eqb arow_eqb (d_av d) (sn_av sn) && list_eqb Z.eqb (d_tx d) (sn_tx sn).
 
 Definition C09_corr (c : C09_case) : bool :=
-  negb (c9_exc c) && cfg_consistentb (c9_cfg c) &&
+  negb (c9_exc c) && cfg_consistentb (c9_cfg c) && hier_consistentb (c9_cfg c) &&
   let trace := grun_trace (c9_cfg c) gstate0 (c9_steps c) in
   all2 (fun G obs => same_set_nat (map fst (g_uows G)) (fst obs) && same_set_pair (g_smap G) (snd obs))
        trace (c9_maps c) &&
